@@ -3,6 +3,7 @@ From Coq Require Import String.
 From CP Require Import Model.Delimited Spec.DelimitedSpec Proofs.CsvRoundTrip.
 From CP Require Import Model.Base Model.Ranges Model.Fields Model.Validio Model.ValidioInst Model.History Model.Writer
   Proofs.ValidioProofs Proofs.WriterProofs Proofs.ReadbackProofs.
+From CP Require Import Model.Fixed Proofs.FixedWriterProofs.
 
 (* after any sequence of write_row calls the writer has emitted exactly the rows it accepted, in order; a rejected
    call leaves output and line counter untouched, and the writer continues with the next call *)
@@ -79,6 +80,24 @@ Proof.
   destruct (write_all_emits c _ _ _ _ H) as [_ [E _]]. cbn in E. rewrite <- E.
   apply csv_roundtrip; assumption.
 Qed.
+
+(* the fixed-width stream in between (C13 meets C14): for every line delimiter setting and all widths, the text the
+   fixed-width row writer produces for the emitted rows is read back by the fixed-width reader as exactly those rows,
+   padded, completely and without an error - provided the emitted values fit their fields, which the length guard of
+   the fields (C03) ensures for validated rows *)
+Theorem fixed_writer_stream_reads_back : forall (CS : Type) (c : cid CS) rows sts_w wf es d ws,
+  write_all c (writer_init c sts_w) rows = (wf, es) ->
+  Forall (fun w => 1 <= w) ws -> ws <> [] -> Forall (fits_row ws) (accepted_of rows es) ->
+  fixed_rows d ws (fixed_text ws (writer_sep d) (w_rows wf)) = Some (map (pad_row ws) (accepted_of rows es), true).
+Proof.
+  intros CS c rows sts_w wf es d ws H Hw Hne Hf.
+  destruct (write_all_emits c _ _ _ _ H) as [_ [E _]]. cbn in E. rewrite E.
+  apply fixed_writer_output_reads_back_lemma; assumption.
+Qed.
+Example fixed_stream_example :
+  fixed_rows LdCR [3; 2]%nat (fixed_text [3; 2]%nat (writer_sep LdCR) [[txt "ab"; txt "x"]; [[LF]; []]; [txt "abc"; txt "yy"]])
+  = Some ([[txt "ab "; txt "x "]; [[LF; SP; SP]; [SP; SP]]; [txt "abc"; txt "yy"]], true).
+Proof. vm_compute. reflexivity. Qed.
 
 (* non-vacuity: duplicates and field errors are refused on writing; what was written reads back completely *)
 Example readback_example :
